@@ -596,6 +596,10 @@ pub fn generate(seed: u64, n: usize, thorough: bool, corpus: Option<&str>) -> Ve
         "foo { 1 }".into(), "sum { 1, 2 }".into(), "prod { x }".into(), "len { v }".into(), "Min { 1, 2 }".into(), "MAX { 1 }".into(),
         "f(i in 0..3) { i }".into(), "abs(i in 0..3) { i }".into(), "len(i in v) { i }".into(), "Sum(i in 0..3) { i }".into(),
         "abs { 1, 2 }".into(), "abs { 1, 2, 3 }".into(), "abs { x } + abs { x, y }".into(), "min { abs { 1, 2 } }".into(),
+        "bar(i in 0..3, j in S) { i }".into(), "range(i in 0..3) { i }".into(), "product(i in S) { i }".into(), "SUM((u, v) in edges(G)) { u }".into(),
+        "summ(i in S) { 1 }".into(), "total(i in 0..=2) { x_i } + 1".into(), "2 * avgs(i in S) { i }".into(),
+        "abs { }".into(), "abs { 1, 2, 3, 4 }".into(), "2 * abs { x, y }".into(), "abs { abs { 1, 2 } }".into(), "f(abs { 1, 2 })".into(), "x_{abs { 1, 2 }}".into(),
+        "sum(i in 0..abs { 1, 2 }) { i }".into(),
         "conjunction { a, b }".into(), "exclusive_disjunction(i in 0..2) { a }".into(), "disjunction { a }".into(),
         // two errors: the first one in the order of the builders is the one reported
         format!("foo {{ {} }}", big), format!("abs {{ {}, 1 }}", big), format!("abs {{ 1, {} }}", big),
